@@ -176,3 +176,54 @@ class ListItemsChangeHandler(Contract):
 
     def covers(self, cx, ov, info):
         return [("rehooks", lambda k, p, s: k == "return")]
+
+
+def _item_maintainer(path_, removed_iter, added_iter, what):
+    class _M(ListItemsChangeHandler):
+        __doc__ = "%s: every value that left is detached once, every value that arrived attached once (multisets), all detaches first" % what
+        path = path_
+
+        def configure(self, cx, I, ov):
+            ListItemsChangeHandler.configure(self, cx, I, ov)
+            spec0, spec1 = loops.LoopSpec, loops.LoopSpec
+            # same invariants, the loop headers of this maintainer
+            hook_specs = cx.on_loop.__closure__
+            removed, added = self.removed, self.added
+            if ".values()" in removed_iter:
+                # event.removed / event.added are mappings: the loop runs over their values
+                def mapping(seq):
+                    def h(I2, o, st, k):
+                        def values(I3, a, kw, s, kk):
+                            r = VRef(I3.cx.new_oid())
+                            return kk(r, s.put(r.oid, HObj("list", seq)))
+                        return k(VFunc("valueview", values=VFunc("opaque", name="values", apply=values)), st)
+                    return h
+                cx.elem_attrs["removed"] = mapping(removed)
+                cx.elem_attrs["added"] = mapping(added)
+
+                def getattr_hook(I2, obj, name, st, k):
+                    if isinstance(obj, VFunc) and obj.kind == "valueview" and name == "values":
+                        return k(obj.values, st)
+                    return None
+                cx.getattr_hook = getattr_hook
+
+            def inv_for(seq, key):
+                def inv(i, view, st):
+                    pre = z3.Extract(seq, 0, i)
+                    bag_axioms(cx, pre)
+                    nxt = z3.Extract(seq, 0, i + 1)
+                    bag_axioms(cx, nxt)
+                    cx.axioms.append(z3.Implies(z3.And(0 <= i, i < z3.Length(seq)), z3.And(z3.Extract(nxt, 0, i) == pre, nxt[i] == seq[i], z3.Length(nxt) == i + 1)))
+                    cx.axioms.append(z3.Extract(seq, 0, z3.Length(seq)) == seq)
+                    return [("one-walk-per-item-so-far", st.ghost["n_" + key] == i),
+                            ("%s-is-the-prefix-processed" % key, st.ghost[key] == bag(pre)), ("order", st.ghost["order_ok"]), ("graph", st.ghost["graph_ok"])]
+                return inv
+            cx.on_loop = loops.make_hook({
+                0: loops.LoopSpec("for removed_item in %s" % removed_iter, [], inv_for(removed, "detached"), ghost=["detached", "n_detached", "order_ok", "graph_ok"]),
+                1: loops.LoopSpec("for added_item in %s" % added_iter, [], inv_for(added, "attached"), ghost=["attached", "n_attached", "order_ok", "graph_ok"])})
+    _M.__name__ = "Maintainer_" + what.replace(" ", "_")
+    return register(_M)
+
+
+_item_maintainer("traits/observation/_set_item_observer.py", "event.removed", "event.added", "set items")
+_item_maintainer("traits/observation/_dict_item_observer.py", "event.removed.values()", "event.added.values()", "dict values")
